@@ -1132,7 +1132,9 @@ class TensorDict(TensorDictBase):
                 if default is not NO_DEFAULT:
                     _others = [_other._get_str(key, default=None) for _other in others]
                     _others = [
-                        self.empty(recurse=True) if _other is None else _other
+                        # the stand-in of a missing operand belongs to the nested entry, not to self:
+                        # a key of item that is also a key of self must not be found in it
+                        item.empty() if _other is None else _other
                         for _other in _others
                     ]
                 else:
@@ -1413,7 +1415,9 @@ class TensorDict(TensorDictBase):
                 if default is not NO_DEFAULT:
                     _others = [_other._get_str(key, default=None) for _other in others]
                     _others = [
-                        self.empty(recurse=True) if _other is None else _other
+                        # the stand-in of a missing operand belongs to the nested entry, not to self:
+                        # a key of item that is also a key of self must not be found in it
+                        item.empty() if _other is None else _other
                         for _other in _others
                     ]
                 else:
